@@ -218,19 +218,17 @@ Qed.
 Definition hist_ok_both (c : cfg) (s : state) (ops : list op) : Prop :=
   hist_ok op_policy_ok c s ops = true /\ hist_ok op_api_ok c s ops = true.
 
-Lemma run_inv c : cfg_facts c -> forall ops k s,
-  Inv c k s -> k + N.of_nat (length ops) < 4294967296 -> hist_ok_both c s ops ->
-  Inv c (k + N.of_nat (length ops)) (run_from c s ops)
+Lemma run_inv c : cfg_facts c -> forall ops s,
+  Inv c 0 s -> hist_ok_both c s ops ->
+  Inv c 0 (run_from c s ops)
   /\ Forall (fun x => is_stop (fst x) = false) (trace_from c s ops).
 Proof.
-  intros F. induction ops as [|o r IH]; intros k s I Hk [H1 H2].
-  - cbn. rewrite N.add_0_r. split; [assumption|constructor].
+  intros F. induction ops as [|o r IH]; intros s I [H1 H2].
+  - cbn. split; [assumption|constructor].
   - cbn [hist_ok] in H1, H2. apply andb_prop in H1. apply andb_prop in H2.
     destruct H1 as [P1 P2], H2 as [A1 A2].
-    cbn [length] in Hk. rewrite Nat2N.inj_succ in Hk.
-    destruct (step_inv c F k s I ltac:(lia) o P1 A1) as [I' R].
-    destruct (IH (k + 1) (st_of (step c s o)) I' ltac:(lia) (conj P2 A2)) as [I'' T].
-    cbn [length run_from fold_left trace_from]. rewrite Nat2N.inj_succ.
-    replace (k + N.succ (N.of_nat (length r))) with (k + 1 + N.of_nat (length r)) by lia.
+    destruct (step_inv c F 0 s I ltac:(lia) o P1 A1) as [I' R].
+    destruct (IH (st_of (step c s o)) (Inv_any c _ 0 _ I') (conj P2 A2)) as [I'' T].
+    cbn [run_from fold_left trace_from].
     split; [exact I''|]. constructor; [exact R|exact T].
 Qed.
